@@ -12,7 +12,7 @@ LEVEL = "fault_enumeration"
 ASSUME = ["all byte strings are represented by: every candidate field (every offset of the metadata of a base file x widths 1,2,4,8) set to boundary values, "
           "every pointer-holding window redirected to every structure of the file (itself included), and seeded random multi-byte mutations, of "
           "library-written and reference files",
-          "memory is measured as bytes allocated by the reader process for one input (cumulative, an upper bound of the peak); bound 64 MiB + 64 x file size; "
+          "memory is the growth of the reader process' heap (live objects plus uncollected garbage, sampled every 200 microseconds from runtime/metrics) while it handles one input; bound 64 MiB + 64 x file size; allocations that do not fit under RLIMIT_AS kill the worker and are seen as such; "
           "time bound 5 s per input, no answer within 10 s = hang; the worker runs under RLIMIT_AS 3 GiB and a 48 MiB stack limit",
           "Go memory safety is observed, not modelled", "TLC/SANY, Go toolchain"]
 
